@@ -220,6 +220,16 @@ pub fn profile(name: &str) -> Profile {
             p.doc.nested = false;
             p.commit_after_update = 25;
         }
+        "bigdoc" => {
+            // packs larger than the compressors' blocks; every commit is reopened
+            p.nrep = (1, 2);
+            p.steps = (8, 14);
+            p.w = [45, 25, 8, 0, 0, 3, 0, 2, 2, 4, 2, 8, 0, 0, 1];
+            p.doc.big = true;
+            p.doc.id_pool = 6;
+            p.caps = vec![1, 2];
+            p.commit_after_update = 30;
+        }
         "noconflictdocs" => {
             // plain strings/ids (used where hostile content is not the point, e.g. Miri)
             p.doc.hostile_strings = false;
@@ -686,8 +696,11 @@ impl World {
         } else {
             w[OP_RESOLVE] *= 2;
         }
-        if rep.heads_log.is_empty() || rep.cur.staged() || rep.behind {
+        if rep.heads_log.is_empty() || rep.behind {
             w[OP_TRAVEL] = 0;
+        } else if rep.cur.staged() {
+            // with staged changes time travel must refuse; try it now and then
+            w[OP_TRAVEL] = (w[OP_TRAVEL] / 3).max(1);
         }
         if rep.doc_hist.len() < 2 {
             w[OP_REVERT] = 0;
@@ -1166,6 +1179,29 @@ impl World {
             return;
         }
         let latest = self.reps[i].cur.clone();
+        if latest.staged() {
+            self.t(format!("r{}.reload_until(heads_log[{}]) with staged changes", i, k));
+            let res = {
+                let m = &self.reps[i].m;
+                guard(|| m.reload_until(&h))
+            };
+            let after = observe(&self.reps[i].m);
+            match res {
+                Outcome::Ok(()) => self.res.viol("C15", "reload_until-ran-with-staged-changes", format!("has_staging={} stage={:?}", latest.has_staging, latest.stage.as_ref().map(|s| trunc(s, 200)))),
+                Outcome::Err(e) => {
+                    if after.s_value(true) != latest.s_value(true) || after.stage != latest.stage || after.anchors != latest.anchors {
+                        self.res.viol("C15", "refused-reload_until-changed-state", format!("{} ;; {}", e, latest.diff(&after)));
+                        self.res.viol("C12", "refused-reload_until-changed-document", format!("{} ;; {}", e, latest.diff(&after)));
+                    }
+                    self.res.count("c15_refusals", 1);
+                }
+                Outcome::Panic(p) => {
+                    self.panic_viol("C15", "reload_until", &p);
+                    self.reps[i].dead = true;
+                }
+            }
+            return;
+        }
         let hs: BTreeSet<String> = h.iter().map(|x| x.to_string()).collect();
         self.t(format!("r{}.reload_until(heads_log[{}] = {} heads)", i, k, h.len()));
         let res = {
